@@ -90,6 +90,8 @@ func checkGuards(c *Ctx, p *Prog, rule string, guards []*Guard) {
 
 func runC01(c *Ctx) {
 	p := c.Progs["mod"]
+	c.Rule("C01.Y", "compatibility with the party that is not changed with this code: stored and cached responses written by the deployed build are still recognised as responses", 2)
+	ruleNewWireFieldNotDecisive(c, p, "C01.Y", "a response stored or cached by an instance of the deployed build (the agent service is deployed separately) carries the zero value there: the waiting client is not handed the response the backend produced for it", "app/types.Response", "app/store.storedResponse")
 
 	// ---- C01.L
 	c.Rule("C01.L", "lockset: every access to proxy.requests and proxy.randGenerator outside the constructor holds proxy.Mutex", 3)
@@ -260,55 +262,7 @@ func runC01(c *Ctx) {
 
 	// ---- C01.G
 	c.Rule("C01.G", "request IDs keep the full width of the generator: hex of the whole SHA-256 of a 63-bit draw", 2)
-	if f := c.need(p, "C01.G", "server.(*proxy).newID"); f != nil {
-		rs := Returns(f)
-		ok, why := false, "newID does not return fmt.Sprintf(\"%x\", <whole sha256 sum>)"
-		if len(rs) == 1 {
-			if sp := CallResult(ReturnValue(rs[0], 0), 0, "fmt.Sprintf"); sp != nil {
-				format, _ := ConstString(PArgs(&sp.Call)[0])
-				whole := false
-				SliceBack(PArgs(&sp.Call)[1], func(v ssa.Value) bool {
-					if mi, isM := v.(*ssa.MakeInterface); isM {
-						if at, isArr := mi.X.Type().Underlying().(*types.Array); isArr && at.Len() == 32 {
-							if CallResult(mi.X, 0, "crypto/sha256.Sum256") != nil {
-								whole = true
-							}
-						}
-					}
-					return true
-				})
-				ok = format == "%x" && whole
-				if !whole {
-					why = "the ID is not the hex of the whole 32-byte sha256 sum (a truncated ID makes two clients share a table slot by collision)"
-				}
-			}
-		}
-		if len(rs) == 1 && !ok {
-			// hex.EncodeToString(sum[:]) of the whole array is the same string as Sprintf("%x", sum)
-			if hx := CallResult(ReturnValue(rs[0], 0), 0, "encoding/hex.EncodeToString"); hx != nil {
-				if sl, isS := PArgs(&hx.Call)[0].(*ssa.Slice); isS && sl.Low == nil && sl.High == nil {
-					if al, isA := sl.X.(*ssa.Alloc); isA {
-						if at, isArr := derefT(al.Type()).Underlying().(*types.Array); isArr && at.Len() == 32 {
-							n, whole := 0, true
-							for _, r := range Refs(al) {
-								if st, isSt := r.(*ssa.Store); isSt && st.Addr == ssa.Value(al) {
-									n++
-									if CallResult(st.Val, 0, "crypto/sha256.Sum256") == nil {
-										whole = false
-									}
-								}
-							}
-							ok = n == 1 && whole
-						}
-					}
-				}
-			}
-		}
-		c.Check("C01.G", "newID:full-width", p, f.Pos(), ok, "ID = hex of the whole 32-byte SHA-256 sum", why)
-		draws := Calls(f, "(*math/rand.Rand).Int63", "(*math/rand.Rand).Uint64", "(*math/rand.Rand).Int", "crypto/rand.Read", "(*math/rand.Rand).Read")
-		small := Calls(f, "(*math/rand.Rand).Intn", "(*math/rand.Rand).Int31", "(*math/rand.Rand).Int31n", "(*math/rand.Rand).Int63n", "(*math/rand.Rand).Uint32", "math/rand.Intn", "math/rand.Int")
-		c.Check("C01.G", "newID:63-bit-draw", p, f.Pos(), len(draws) == 1 && len(small) == 0, "one full-width draw from the proxy's generator per ID", "the ID is no longer derived from one full-width (≥63 bit) draw of the proxy's generator")
-	}
+	ruleNewIDShape(c, p, "C01.G")
 
 	// ---- C01.S
 	c.Rule("C01.S", "websocket-shim sessions: unique session IDs (a shared ID hands one client the other's messages)", 2)
@@ -488,4 +442,59 @@ func posOf(is []ssa.Instruction) token.Pos {
 		return is[0].Pos()
 	}
 	return 0
+}
+
+// ruleNewIDShape: request IDs of the stand-alone proxy are the hex of the whole SHA-256 of one
+// full-width draw of a generator seeded per process: unique across clients AND across restarts
+// of the proxy (agents keep the IDs they have seen across a proxy restart).
+func ruleNewIDShape(c *Ctx, p *Prog, rule string) {
+	if f := c.need(p, rule, "server.(*proxy).newID"); f != nil {
+		rs := Returns(f)
+		ok, why := false, "newID does not return fmt.Sprintf(\"%x\", <whole sha256 sum>)"
+		if len(rs) == 1 {
+			if sp := CallResult(ReturnValue(rs[0], 0), 0, "fmt.Sprintf"); sp != nil {
+				format, _ := ConstString(PArgs(&sp.Call)[0])
+				whole := false
+				SliceBack(PArgs(&sp.Call)[1], func(v ssa.Value) bool {
+					if mi, isM := v.(*ssa.MakeInterface); isM {
+						if at, isArr := mi.X.Type().Underlying().(*types.Array); isArr && at.Len() == 32 {
+							if CallResult(mi.X, 0, "crypto/sha256.Sum256") != nil {
+								whole = true
+							}
+						}
+					}
+					return true
+				})
+				ok = format == "%x" && whole
+				if !whole {
+					why = "the ID is not the hex of the whole 32-byte sha256 sum (a truncated ID makes two clients share a table slot by collision)"
+				}
+			}
+		}
+		if len(rs) == 1 && !ok {
+			// hex.EncodeToString(sum[:]) of the whole array is the same string as Sprintf("%x", sum)
+			if hx := CallResult(ReturnValue(rs[0], 0), 0, "encoding/hex.EncodeToString"); hx != nil {
+				if sl, isS := PArgs(&hx.Call)[0].(*ssa.Slice); isS && sl.Low == nil && sl.High == nil {
+					if al, isA := sl.X.(*ssa.Alloc); isA {
+						if at, isArr := derefT(al.Type()).Underlying().(*types.Array); isArr && at.Len() == 32 {
+							n, whole := 0, true
+							for _, r := range Refs(al) {
+								if st, isSt := r.(*ssa.Store); isSt && st.Addr == ssa.Value(al) {
+									n++
+									if CallResult(st.Val, 0, "crypto/sha256.Sum256") == nil {
+										whole = false
+									}
+								}
+							}
+							ok = n == 1 && whole
+						}
+					}
+				}
+			}
+		}
+		c.Check(rule, "newID:full-width", p, f.Pos(), ok, "ID = hex of the whole 32-byte SHA-256 sum", why)
+		draws := Calls(f, "(*math/rand.Rand).Int63", "(*math/rand.Rand).Uint64", "(*math/rand.Rand).Int", "crypto/rand.Read", "(*math/rand.Rand).Read")
+		small := Calls(f, "(*math/rand.Rand).Intn", "(*math/rand.Rand).Int31", "(*math/rand.Rand).Int31n", "(*math/rand.Rand).Int63n", "(*math/rand.Rand).Uint32", "math/rand.Intn", "math/rand.Int")
+		c.Check(rule, "newID:63-bit-draw", p, f.Pos(), len(draws) == 1 && len(small) == 0, "one full-width draw from the proxy's generator per ID", "the ID is no longer derived from one full-width (≥63 bit) draw of the proxy's generator")
+	}
 }
